@@ -39,12 +39,30 @@ type c05Case struct {
 	Names  []string  `json:"names,omitempty"`
 	Ref    bool      `json:"ref_written,omitempty"`
 	Tree   *treeSpec `json:"tree,omitempty"`
+	Hand   string    `json:"hand,omitempty"` // label of a hand-written file DAG (gen.HandFamily)
+}
+
+// buildFile writes the file DAG of a "file" or "hand" case.
+func (c c05Case) buildFile() (*store.Store, cid.Cid, error) {
+	if c.Kind == "hand" {
+		spec, ok := gen.HandByLabel(c.Hand)
+		if !ok {
+			return nil, cid.Undef, fmt.Errorf("unknown hand-written DAG %q", c.Hand)
+		}
+		s := store.New()
+		root, _ := spec.Build(s)
+		return s, root, nil
+	}
+	s, root, _, err := c.File.build()
+	return s, root, err
 }
 
 func (c c05Case) String() string {
 	switch c.Kind {
 	case "file":
 		return "file " + c.File.String()
+	case "hand":
+		return c.Hand
 	case "path":
 		return "path-tree " + c.Tree.String()
 	}
@@ -63,7 +81,7 @@ func extraReads(log []cid.Cid, allowed map[string]bool) []cid.Cid {
 
 func (c c05Case) run(viol func(sig, detail string), r *core.Run) {
 	switch c.Kind {
-	case "file":
+	case "file", "hand":
 		c.runFile(viol, r)
 	case "shard":
 		c.runShard(viol, r)
@@ -73,7 +91,7 @@ func (c c05Case) run(viol func(sig, detail string), r *core.Run) {
 }
 
 func (c c05Case) runFile(viol func(sig, detail string), r *core.Run) {
-	s, root, _, err := c.File.build()
+	s, root, err := c.buildFile()
 	if err != nil {
 		viol("build-error", fmt.Sprintf("%s: %v", c, err))
 		return
